@@ -221,16 +221,22 @@ func ValidateLogConfig(cfg *configpb.LogConfig) (*ValidatedLogConfig, error) {
 		if len(cfg.CtfeStorageConnectionString) == 0 {
 			return nil, errors.New("missing ctfe_storage_connection_string when issuance chain storage backend is CTFE")
 		}
-		// Validate CTFEStorageConnectionString
-		if strings.HasPrefix(cfg.CtfeStorageConnectionString, "mysql") {
-			if _, err := mysql.ParseDSN(strings.Split(cfg.CtfeStorageConnectionString, "://")[1]); err != nil {
+		// Validate CTFEStorageConnectionString. The storage packages insist on
+		// exactly "<driver>://<data source name>", so do the same here.
+		conn := strings.Split(cfg.CtfeStorageConnectionString, "://")
+		if len(conn) != 2 {
+			return nil, errors.New("failed to parse ctfe_storage_connection_string: want <driver>://<data source name>")
+		}
+		switch conn[0] {
+		case "mysql":
+			if _, err := mysql.ParseDSN(conn[1]); err != nil {
 				return nil, errors.New("failed to parse ctfe_storage_connection_string for mysql driver")
 			}
-		} else if strings.HasPrefix(cfg.CtfeStorageConnectionString, "postgres") {
+		case "postgres", "postgresql":
 			if _, err := pgconn.ParseConfig(cfg.CtfeStorageConnectionString); err != nil {
 				return nil, errors.New("failed to parse ctfe_storage_connection_string for postgresql pgx driver")
 			}
-		} else {
+		default:
 			return nil, errors.New("unsupported driver in ctfe_storage_connection_string")
 		}
 		vCfg.CTFEStorageConnectionString = cfg.CtfeStorageConnectionString
